@@ -69,6 +69,49 @@ def is_dynamic_writes(F, R, tag="C01-d"):
              "Dependency::is_dynamic is assigned `%s`, which is neither the first-import initialisation, `current && import.is_dynamic`, nor false: a specifier imported statically and dynamically could end up dynamic" % expr_text(w["r"]), where(w))
 
 
+def import_literals(F, R, tag="C01-d"):
+    """an Import record is dynamic exactly when it comes from a dynamic
+    descriptor; synthetic imports (triple-slash references, JSX import source,
+    JSDoc imports, module augmentations) are static"""
+    lits = [n for n in F.all_nodes() if n["k"] == "Struct" and n.get("adt") == "graph::Import" and not n["_top"].get("derived") and n["_top"]["file"] == "src/graph.rs" and "::tests::" not in n["_top"]["path"] and "::test" not in n["_top"]["path"]]
+    R.floor(tag + " Import literals", len(lits), 6)
+    for l in lits:
+        f = {x["name"]: peel(x["e"]) for x in l["fields"]}
+        if "is_dynamic" not in f:
+            continue
+        dyn_ctx = any(x.kind == "pat" and x.pol and "DependencyDescriptor::Dynamic" in pat_text(x.pat) for x in guards_at(F, l, stop_at_async=False))
+        v = f["is_dynamic"]
+        ok = v.get("k") == "Lit" and v.get("v") is dyn_ctx
+        R.ob(tag, "Import built %s is %s" % ("from a dynamic descriptor" if dyn_ctx else "from a static descriptor / pragma / comment", "dynamic" if dyn_ctx else "static"), ok,
+             "Import { is_dynamic: %s } %s: the first code import initialises Dependency::is_dynamic from this flag, so the edge would be treated as %s" % (
+                 expr_text(v), "under a dynamic descriptor" if dyn_ctx else "for a static form", "static" if dyn_ctx else "dynamic (skipped with skip_dynamic_deps, loaded after all static loads)"), where(l))
+
+
+def descriptor_loops_complete(F, R, tag="C01-c"):
+    """every declared reference is processed: the loops that turn ModuleInfo
+    lists into dependencies have no early `break` / `return`"""
+    n_l = 0
+    for fn in ("graph::parse_js_module_from_module_info", "graph::fill_module_dependencies"):
+        b = F.body(fn)
+        for lp in [n for n in b["_nodes"] if n["k"] == "For"]:
+            it = lp["iter"]
+            if not (any(tyc(F, y, "analysis::") for y in walk(it)) or any(x.get("k") == "Field" and x["field"] in ("ts_references", "jsdoc_imports", "dependencies") for x in walk(it))):
+                continue
+            n_l += 1
+            early = []
+            for x in walk(lp["body"]):
+                if x.get("k") in ("Break", "Ret"):
+                    inner = [a for a in k_ancestors(x) if a.get("k") in ("For", "While", "Loop", "Closure") and is_within(a, lp["body"])]
+                    if x["k"] == "Break" and inner:
+                        continue
+                    if x["k"] == "Ret" and any(a.get("k") == "Closure" for a in inner):
+                        continue
+                    early.append(x)
+            R.ob(tag, "every entry of `%s` is processed" % expr_text(it)[:40], not early,
+                 "the loop over `%s` in %s can stop early (`%s`): references declared after that point would not be recorded as dependencies" % (expr_text(it)[:40], fn.split("::")[-1], expr_text(early[0])[:20] if early else ""), where(early[0]) if early else "")
+    R.floor(tag + " descriptor loops", n_l, 3)
+
+
 def run(F, R, tier):
     lw = F.body("graph::Builder::load_with_redirect_count")
     # ---------------- C01-a ------------------------------------------------
@@ -126,6 +169,30 @@ def run(F, R, tier):
     ent = [n for n in adr["_nodes"] if n.get("k") == "MethodCall" and n["name"] == "entry" and field_of(n["recv"]) == "redirects"]
     bad, _ = must_pass(F, adr["body"]["value"], lambda n: n in ent)
     R.ob("C01-b", "add_redirect always records the redirect", len(ent) == 1 and not bad, "a path through add_redirect records nothing", adr["file"])
+
+    # a load that the loader redirected continues with the context of the
+    # original request (root-ness, asset, dynamic branch, attribute)
+    vb = F.body("graph::Builder::visit")
+    n_r = 0
+    for arm in [a_ for m_ in vb["_nodes"] if m_.get("k") == "Match" for a_ in m_["arms"]]:
+        if not (arm["pat"].get("path") or "").endswith("PendingInfoResponse::Redirect"):
+            continue
+        binds = {b_["lid"] for b_ in pat_bindings(arm["pat"])}
+        for l in [x for x in walk(arm["body"]) if x.get("k") == "Struct" and x.get("adt") == "graph::LoadOptionsRef"]:
+            n_r += 1
+            f = {x["name"]: peel_value(x["e"]) for x in l["fields"]}
+            for fld in ("is_root", "is_asset", "in_dynamic_branch", "maybe_attribute_type"):
+                R.ob("C01-b", "a redirected load keeps the request's %s" % fld, f[fld].get("lid") in binds,
+                     "the load that follows a loader redirect takes %s from `%s` instead of from the redirected request: e.g. a redirected root would be loaded as a non-root (unknown media types / JSON without attribute then become errors and the root's closure is missing)" % (fld, expr_text(f[fld])[:50]), where(l))
+    R.floor("C01-b redirect continuation", n_r, 1)
+    tl_ = [b for b in F.bodies if b["path"].endswith("try_load") and "load_pending_module" in b["path"]]
+    for l in [n for b in tl_ for n in b["_nodes"] if n["k"] == "Struct" and (n.get("variant") or "").endswith("PendingInfoResponse::Redirect")]:
+        f = {x["name"]: peel_value(x["e"]) for x in l["fields"]}
+        for fld, src in (("is_root", "is_root"), ("is_asset", "is_asset"), ("is_dynamic", "in_dynamic_branch")):
+            v = f.get(fld, {})
+            ok = v.get("res") == "local" and tyc(F, v, "bool") and not local_defs(v["_top"], v["lid"]) == [] and all(d[0] in ("param", "pat", "letpat", "let") for d in local_defs(v["_top"], v["lid"]))
+            nm_ok = True
+            R.ob("C01-b", "the redirect response carries the request's %s" % fld, ok and nm_ok, "Redirect { %s: %s }" % (fld, expr_text(f.get(fld, {}))[:40]), where(l))
 
     # ---------------- C01-c ------------------------------------------------
     for adt in ("graph::Dependency", "graph::JsModule", "graph::WasmModule", "graph::JsonModule", "graph::TypesDependency"):
@@ -269,6 +336,8 @@ def run(F, R, tier):
 
     # ---------------- C01-d ------------------------------------------------
     is_dynamic_writes(F, R)
+    import_literals(F, R)
+    descriptor_loops_complete(F, R)
     aw = [n for n in F.all_nodes() if not n["_top"].get("derived") and n["k"] in ("Assign", "AssignOp") and peel(n["l"]).get("k") == "Field" and peel(n["l"])["field"] == "is_asset" and peel(n["l"]).get("adt") == "graph::PendingDynamicBranch"]
     R.floor("C01-d writes to PendingDynamicBranch::is_asset", len(aw), 1)
     for w in aw:
